@@ -127,6 +127,7 @@ class AccessMixin:
         t = self.st.read(attr, RID(base.term))
         if fty is not None and fty.name == "self":
             fty = base.ty
+        fty = self.norm_ty(fty)
         self.assume_type(t, fty, fr)
         if fty is None:
             # refs stored in the heap are allocated
@@ -254,6 +255,9 @@ class AccessMixin:
             if f.contract is not None and text in f.contract.calls:
                 return f.contract.calls[text]
             f = f.parent_env
+        top = getattr(self, "top_contract", None)
+        if top is not None and text in top.calls:
+            return top.calls[text]      # inlined callees run under the assumed contracts of the function being verified
         return None
 
     def eval_args(self, node, fr):
